@@ -27,7 +27,9 @@ NOBLE      == "NOBLE"      \* domain 4
 MINT       == "MINT"       \* the fiat-token-factory minting denom, spelled exactly
 
 \* every symbol that denotes a syntactically valid bech32 account address
-AddrSyms == Accounts \cup {MODULE_ACC, "zero", "x1", "x2"}
+\* ("s8": a valid address of 8 bytes, "l33": one of 33 bytes; where the module pads an address into 32 bytes it
+\* copies at most 20 bytes to offset 12, so their padded forms are 8 bytes + zeros, and the first 20 bytes)
+AddrSyms == Accounts \cup {MODULE_ACC, "zero", "x1", "x2", "s8", "l33"}
 ValidAddr(a) == a \in AddrSyms
 
 ---------------------------------------------------------------------------
@@ -490,6 +492,7 @@ Run(s, m, f) ==
 (* History variable.                                                        *)
 HistInit(s) == [outbox |-> <<>>,      \* [msg, by, type, fresh] per emitted MessageSent, in order
                 recv   |-> <<>>,      \* [key, ok, mod] per receive attempt
+                rolled |-> {},        \* keys of receives that failed or were discarded (rolled back)
                 minted |-> 0, burned |-> 0,
                 steps  |-> 0, start  |-> s.nextNonce, genUsed |-> s.used,
                 supply0 |-> s.supply]
@@ -509,7 +512,8 @@ HistExtend1(h, o) ==
                THEN [h EXCEPT !.outbox = Append(@, [msg |-> sent[1].msg, by |-> m.from, type |-> m.type, fresh |-> fresh])]
                ELSE h
       h2    == IF m.type = "ReceiveMessage" /\ m.wire.k = "msg"
-               THEN [h1 EXCEPT !.recv = Append(@, [key |-> [d |-> m.wire.src, n |-> m.wire.nonce],
+               THEN [h1 EXCEPT !.rolled = IF o.res = "ok" THEN @ ELSE @ \cup {[d |-> m.wire.src, n |-> m.wire.nonce]},
+                               !.recv = Append(@, [key |-> [d |-> m.wire.src, n |-> m.wire.nonce],
                                                    ok |-> o.res = "ok", mod |-> m.wire.rcpt = ModulePadded,
                                                    amt |-> IF m.wire.rcpt = ModulePadded /\ m.wire.body.k = "burn"
                                                            THEN m.wire.body.amt ELSE 0])]
@@ -524,10 +528,16 @@ HistExtend1(h, o) ==
 \* ledger calls in order, which is all the history predicates read)
 RECURSIVE HistFoldOuts(_, _)
 HistFoldOuts(h, outs) == IF outs = <<>> THEN h ELSE HistFoldOuts([HistExtend1(h, Head(outs)) EXCEPT !.steps = h.steps], Tail(outs))
+RecvKeysOf(m) ==       \* the (domain, nonce) keys that the receives inside a transaction name
+  CASE m.type = "ReceiveMessage" -> IF m.wire.k = "msg" THEN {[d |-> m.wire.src, n |-> m.wire.nonce]} ELSE {}
+    [] m.type = "Batch"          -> UNION {IF m.msgs[i].type = "ReceiveMessage" /\ m.msgs[i].wire.k = "msg"
+                                           THEN {[d |-> m.msgs[i].wire.src, n |-> m.msgs[i].wire.nonce]} ELSE {} : i \in DOMAIN m.msgs}
+    [] OTHER                     -> {}
 HistExtend(h, o) ==
-  IF o.msg.type = "Simulate" THEN [h EXCEPT !.steps = @ + 1] ELSE          \* a simulation leaves no trace
+  IF o.msg.type = "Simulate"          \* a simulation leaves no trace (its receives count as rolled back)
+  THEN [h EXCEPT !.steps = @ + 1, !.rolled = @ \cup RecvKeysOf(o.msg.tx)] ELSE
   IF o.msg.type # "Batch" THEN HistExtend1(h, o)
-  ELSE IF o.res # "ok" THEN [h EXCEPT !.steps = @ + 1]
+  ELSE IF o.res # "ok" THEN [h EXCEPT !.steps = @ + 1, !.rolled = @ \cup RecvKeysOf(o.msg)]
   ELSE [HistFoldOuts(h, o.inner) EXCEPT !.steps = h.steps + 1]
 
 ---------------------------------------------------------------------------
